@@ -699,6 +699,7 @@ struct TaskScript { std::vector<OpRec> recs; size_t next = 0; bool done = false;
 
 static void run_script_job(Task* t, TaskScript* sc, bool preempt) {
     for (; sc->next < sc->recs.size(); ++sc->next) {
+        if (preempt && sc->next > 0) boundary_tick(t);
         exec_op(t, sc->recs[sc->next], preempt);
     }
     sc->done = true;
@@ -747,6 +748,11 @@ static RunResult run_preempt(const Plan& p, const RunOpts& o) {
     size_t nblocks_before = E.blocks.size();
     E.shadow.clear(); E.mon_violation = Violation(); E.monitor = o.monitor && have_monitor && p.prop == "C20"; E.shared_stores = 0;
     Rng srng(o.sched_seed ? o.sched_seed : 1);
+    E.sched_rng = Rng(mix64(o.sched_seed, 77));
+    bool generated = p.sched.empty() && o.sched_strategy >= 0;
+    E.seam_chase = generated && (o.sched_strategy % 5) == 3;
+    E.write_chase = generated && (o.sched_strategy % 5) == 4 && E.monitor;
+    E.yield_at_op = generated && (o.sched_strategy % 5) == 0;
     std::vector<bool> started(nt, false);
     size_t qi = 0;
     int strategy = o.sched_strategy;
@@ -762,18 +768,17 @@ static RunResult run_preempt(const Plan& p, const RunOpts& o) {
         if (qi < p.sched.size()) { q = p.sched[qi++]; q.task = runnable[(size_t)q.task % runnable.size()]; if (!q.edges) q.edges = 1; }
         else if (!p.sched.empty() || strategy < 0) { q.task = runnable[0]; q.edges = 1u << 30; }
         else {
-            switch (strategy % 4) {
+            switch (strategy % 5) {
             case 0: q.task = runnable[srng.below(runnable.size())]; q.edges = 1u << 30; break;   // whole operations (yield at op boundary below)
             case 1: { q.task = runnable[srng.below(runnable.size())]; unsigned k = 3 + 3 * (unsigned)((o.sched_seed >> 8) % 4); q.edges = 1 + (u32)srng.below(2u << k); break; }
             case 2: { int best = runnable[0]; for (int k : runnable) if (prio[k] > prio[best]) best = k; q.task = best; q.edges = 1 + (u32)srng.below(20000);
                       if (srng.chance(1, 3)) prio[best] = (int)srng.below(1000); break; }
-            default: { q.task = runnable[srng.below(runnable.size())]; q.edges = 1 + (u32)srng.below(srng.chance(1, 2) ? 64 : 4096); break; }
+            default: { q.task = runnable[srng.below(runnable.size())]; q.edges = 1 + (u32)srng.below(srng.chance(1, 2) ? 64 : 4096); break; }   // 3: seam-chasing, 4: write-chasing ride on short quanta
             }
         }
         Task* t = &tasks[q.task];
         t->countdown = q.edges;
-        r.sched_taken.push_back(q);
-        sched_h = fnv1a(&q, sizeof q, sched_h);
+        t->ticks_in_quantum = 0;
         ++total_quanta;
         int st;
         if (!started[q.task]) {
@@ -782,6 +787,10 @@ static RunResult run_preempt(const Plan& p, const RunOpts& o) {
             t->job = [t, sc] { run_script_job(t, sc, true); };
             st = resume(t);
         } else st = resume(t);
+        // record what was actually consumed, so that the explicit schedule replays without the strategy
+        if (st == TS_PREEMPTED) q.edges = (u32)std::max<u64>(1, t->ticks_in_quantum);
+        r.sched_taken.push_back(q);
+        sched_h = fnv1a(&q.task, sizeof q.task, sched_h); sched_h = fnv1a(&q.edges, sizeof q.edges, sched_h);
         if (st == TS_PREEMPTED) {
             r.st.add("preemptions");
             // reach measure: where the switch happened and what the others were doing
@@ -793,7 +802,7 @@ static RunResult run_preempt(const Plan& p, const RunOpts& o) {
         if (E.mon_violation.found) break;
         if (total_quanta > 4000000) { r.v.found = true; r.v.prop = p.prop; r.v.oracle = "liveness"; r.v.cls = "quanta"; r.v.msg = "schedule did not terminate"; break; }
     }
-    E.monitor = false;
+    E.monitor = false; E.seam_chase = E.write_chase = E.yield_at_op = false;
     r.sched_hash = sched_h;
     r.st.add("quanta", total_quanta);
     r.st.add("shared_stores", E.shared_stores);
